@@ -117,6 +117,7 @@ class Ctx:
     # ---------- model side ---------------------------------------------------------------------
     def coq_run(self, stem, text, timeout=900):
         """Compile gen/<stem>.v; returns (ok, output)."""
+        stem = '%s_p%d' % (stem, os.getpid())      # concurrent checks of one property must not share files
         path = os.path.join(GEN, stem + '.v')
         with open(path, 'w', encoding='utf-8') as f:
             f.write(text)
@@ -144,6 +145,13 @@ class Ctx:
                     + '\n ; '.join(shards[ix]) + '\n ].\n'
                     + 'Eval vm_compute in (List.map (%s) cases).\n' % checker)
             ok, out = self.coq_run('%s_%s_%d' % (stem, self.pid, ix), body, timeout)
+            for _ in range(3):
+                if ok or 'inconsistent assumptions' not in out:
+                    break
+                # another check rebuilt a library in between (concurrent runs): rebuild our targets, retry
+                build.regenerate_consts()
+                build.make(8, targets=getattr(self, 'targets', None))
+                ok, out = self.coq_run('%s_%s_%d' % (stem, self.pid, ix), body, timeout)
             if not ok:
                 raise InfraError('coqc failed on generated cases %s shard %d: %s' % (stem, ix, out[-3000:]))
             return parse_nat_list(out)
@@ -209,7 +217,8 @@ def check_proofs(ctx, props_rel, jobs=16, extra_targets=(), const_parts=None):
         # only the constants this property's theorems/checker depend on matter to it
         if const_parts is None or p.split(':')[0] in const_parts:
             ctx.infra_problem('constants extractor: ' + p)
-    ok, log = build.make(jobs, targets=[props_rel + 'o'] + list(extra_targets))
+    ctx.targets = [props_rel + 'o'] + list(extra_targets)
+    ok, log = build.make(jobs, targets=ctx.targets)
     cone = build.dep_cone(props_rel)
     hits = build.forbidden_scan(cone)
     names = []
@@ -239,7 +248,7 @@ def check_proofs(ctx, props_rel, jobs=16, extra_targets=(), const_parts=None):
         ctx.proof['error'] = 'forbidden constructs: ' + '; '.join('%s:%d:%s' % h for h in hits)
         return
     # fresh compile of the statement file to capture Print Assumptions
-    tmpd = os.path.join(GEN, 'pa_%s' % ctx.pid)
+    tmpd = os.path.join(GEN, 'pa_%s_p%d' % (ctx.pid, os.getpid()))
     os.makedirs(tmpd, exist_ok=True)
     r = subprocess.run(['timeout', '600', 'coqc', '-w', 'none', '-Q', '.', 'PJ', '-o',
                         os.path.join(tmpd, os.path.basename(props_rel) + 'o'), props_rel],
